@@ -31,8 +31,16 @@ def suite(wt):
 
 
 def main():
-    prop, names = sys.argv[1], sys.argv[2:]
-    wt = f"/tmp/mut/{prop}"
+    args = sys.argv[1:]
+    root, prefix = "/tmp/mut", ""
+    while args and args[0].startswith("--"):
+        if args[0] == "--root":
+            root = args[1]
+        elif args[0] == "--prefix":
+            prefix = args[1]
+        args = args[2:]
+    prop, names = args[0], args[1:]
+    wt = f"{root}/{prop}"
     out = os.path.join(wt, "out")
     sh(["git", "checkout", "--", "."], wt)
     for name in names:
@@ -59,7 +67,7 @@ def main():
         print(json.dumps(res)[:900])
         if not ok:
             continue
-        dst = os.path.join(os.path.dirname(os.path.dirname(os.path.abspath(__file__))), "seeded", f"{prop}-{name}")
+        dst = os.path.join(os.path.dirname(os.path.dirname(os.path.abspath(__file__))), "seeded", f"{prop}-{prefix}{name}")
         os.makedirs(dst, exist_ok=True)
         shutil.copy(diff, os.path.join(dst, "patch.diff"))
         text = open(demo).read().replace(f'menelaus.__file__.startswith("{wt}")',
